@@ -42,7 +42,7 @@ PROPS = {
     "C14": dict(fams=[("serde", 1500, "fast"), ("deser", 1500, "fast")], mult=20),
     "C15": dict(fams=[("values", 1500, "fast"), ("alist", 1500, "fast"), ("consops", 2000, "fast"), ("consops", 500, "nofast")], mult=20),
     "C16": dict(fams=[("consops", 1200, "fast")], mult=1, special="depth"),
-    "C17": dict(fams=[("malformed", 3000, "fast"), ("text", 600, "fast"), ("print", 800, "fast"), ("escapes", 1, "fast"), ("chars", 1, "fast")], mult=10),
+    "C17": dict(fams=[("malformed", 3000, "fast"), ("text", 600, "fast"), ("print", 800, "fast"), ("printall", 1, "fast"), ("escapes", 1, "fast"), ("chars", 1, "fast")], mult=10),
     "C18": dict(fams=[("deser", 3000, "fast")], mult=20),
     "C19": dict(fams=[("prefix", 250, "fast"), ("malformed", 2000, "fast"), ("escapes", 1, "fast"), ("prefix", 80, "nofast")], mult=10),
     "C20": dict(fams=[("prims", 2500, "fast"), ("values", 800, "fast")], mult=20),
@@ -330,6 +330,10 @@ def run_depth(prop, tier, workdir):
     if prop == "C03":
         ops = []
     jobs = []
+    if prop == "C16":
+        for op in ("from_value_skipped", "from_value_ignored", "from_value_untagged"):
+            for n in ([1000, 300000] if tier == "quick" else [1000, 100000, 1000000]):
+                jobs.append((op, "proper", n))
     for op in ops:
         for shape in ("proper", "dotted"):
             if op in ("from_value", "to_value") and shape == "dotted":
